@@ -15,6 +15,9 @@ pub enum Step {
     Repo(Op),
     /// id: 0 = none, 1 = existing commit (index), 2 = arbitrary token; pending flag
     Update(u8, u16, bool),
+    /// `checkpoint update --id <token> -p --git-path <nonexistent>`: fails while collecting
+    /// pending changes; an unsuccessful update must not change what is stored
+    FailingUpdate(u16),
     Show,
     Delete,
     OutDeleteAll,
@@ -39,7 +42,8 @@ pub fn strategy() -> impl Strategy<Value = Case> {
     let step = prop_oneof![
         4 => repo.prop_map(Step::Repo),
         4 => (0u8..3, any::<u16>(), any::<bool>()).prop_map(|(k, i, p)| Step::Update(k, i, p)),
-        3 => Just(Step::Show),
+        2 => any::<u16>().prop_map(Step::FailingUpdate),
+        4 => Just(Step::Show),
         2 => Just(Step::Delete),
         1 => Just(Step::OutDeleteAll),
         3 => Just(Step::Analyze),
@@ -126,6 +130,27 @@ pub fn check(case: &Case, w: usize) -> CheckResult {
                 distinct_updates.insert(cp.to_string());
                 model = Some(cp);
                 had_update = true;
+            }
+            Step::FailingUpdate(tok) => {
+                let id = format!("failing-{}", tok);
+                let o = h.env.mr(&["checkpoint", "update", "--id", &id, "-p", "--git-path", "/nonexistent/bin/git"]);
+                if o.code == Some(0) {
+                    return inconclusive("an update with a nonexistent git binary succeeded".into());
+                }
+                classes.insert("failing update");
+                // the model stays as it is: show (judged at the next Show step and right here)
+                let s2 = h.env.mr(&["checkpoint", "show"]);
+                match (&model, s2.json().filter(|_| s2.ok())) {
+                    (Some(m), Some(v)) if v.get("checkpoint") == Some(m) => {}
+                    (None, None) => {}
+                    (m, got) => {
+                        return viol_obs(
+                            "c19.failed.update.changed.store",
+                            format!("step {}: an unsuccessful `checkpoint update` changed what `checkpoint show` returns", si),
+                            json!({"last_successful_update": m, "shown": got.and_then(|v| v.get("checkpoint").cloned()), "stderr": s2.stderr_str()}),
+                        )
+                    }
+                }
             }
             Step::Show => {
                 let o = h.env.mr(&["checkpoint", "show"]);
@@ -234,7 +259,7 @@ pub fn check(case: &Case, w: usize) -> CheckResult {
 }
 
 pub fn run(ctx: &mut Ctx) {
-    ctx.rule = "stateful: up to 20 steps over {commit, edit, create, delete file, checkpoint update (no flags / --id <existing sha> / --id <arbitrary token> / -p), show, checkpoint delete, \
+    ctx.rule = "stateful: up to 20 steps over {commit, edit, create, delete file, checkpoint update (no flags / --id <existing sha> / --id <arbitrary token> / -p), updates that fail while collecting pending changes (nonexistent --git-path), show, checkpoint delete, \
 out delete --all, analyze, run}. model: Option<checkpoint object returned by the last update>. oracle: show == model or fails iff none; update without --id records the harness's own \
 `git rev-parse HEAD`; after delete / out delete --all: show fails, analyze reports checkpointed=false and all targets, run lists and starts every target. \
 non-trivial = >= 2 updates with different results, or a delete after an update followed by analyze/run; distinct by SHA-256"
